@@ -42,15 +42,7 @@ func changeNotSkipped(w *load.World, c *core.Collector) {
 					continue
 				}
 				for _, a := range ci.Common().Args {
-					for i := 0; i < 3; i++ {
-						switch x := a.(type) {
-						case *ssa.ChangeType:
-							a = x.X
-						case *ssa.MakeClosure:
-							a = x.Fn
-						}
-					}
-					if h, ok := a.(*ssa.Function); ok && len(h.Blocks) > 0 {
+					for _, h := range funcValuesOf(w, a, 0) {
 						fns[h] = true
 					}
 				}
@@ -443,15 +435,7 @@ func transformsOf(w *load.World) []*ssa.Function {
 					continue
 				}
 				for _, a := range ci.Common().Args {
-					for i := 0; i < 3; i++ {
-						switch x := a.(type) {
-						case *ssa.ChangeType:
-							a = x.X
-						case *ssa.MakeClosure:
-							a = x.Fn
-						}
-					}
-					if h, ok := a.(*ssa.Function); ok && len(h.Blocks) > 0 {
+					for _, h := range funcValuesOf(w, a, 0) {
 						set[h] = true
 					}
 				}
@@ -548,4 +532,81 @@ func errorNotSkipped(w *load.World, c *core.Collector) {
 			c.Add("DOCFLOW", key, core.OK, w.Position(f.Pos()), "", props...)
 		}
 	}
+}
+
+// funcValuesOf: the functions a function-typed value can be: a literal, a named function, a
+// parameter (what the callers pass, per static call site), a captured variable (what was bound),
+// a cell assigned once.
+func funcValuesOf(w *load.World, v ssa.Value, depth int) []*ssa.Function {
+	if depth > 5 || v == nil {
+		return nil
+	}
+	if _, isFn := v.Type().Underlying().(*types.Signature); !isFn {
+		if p, isP := v.Type().Underlying().(*types.Pointer); !isP {
+			return nil
+		} else if _, isFn := p.Elem().Underlying().(*types.Signature); !isFn {
+			return nil
+		}
+	}
+	switch x := v.(type) {
+	case *ssa.Function:
+		if len(x.Blocks) > 0 {
+			return []*ssa.Function{x}
+		}
+	case *ssa.MakeClosure:
+		return funcValuesOf(w, x.Fn, depth+1)
+	case *ssa.ChangeType:
+		return funcValuesOf(w, x.X, depth+1)
+	case *ssa.Phi:
+		var out []*ssa.Function
+		for _, e := range x.Edges {
+			out = append(out, funcValuesOf(w, e, depth+1)...)
+		}
+		return out
+	case *ssa.Parameter:
+		fn := x.Parent()
+		var out []*ssa.Function
+		for i, q := range fn.Params {
+			if q != x {
+				continue
+			}
+			for _, site := range staticCallSites(w, fn) {
+				if i < len(site.Common().Args) {
+					out = append(out, funcValuesOf(w, site.Common().Args[i], depth+1)...)
+				}
+			}
+		}
+		return out
+	case *ssa.FreeVar:
+		fn := x.Parent()
+		var out []*ssa.Function
+		if p := fn.Parent(); p != nil {
+			for i, q := range fn.FreeVars {
+				if q != x {
+					continue
+				}
+				for _, b := range p.Blocks {
+					for _, in := range b.Instrs {
+						if mc, ok := in.(*ssa.MakeClosure); ok && mc.Fn == ssa.Value(fn) && i < len(mc.Bindings) {
+							out = append(out, funcValuesOf(w, mc.Bindings[i], depth+1)...)
+						}
+					}
+				}
+			}
+		}
+		return out
+	case *ssa.Alloc:
+		var out []*ssa.Function
+		for _, r := range *x.Referrers() {
+			if st, ok := r.(*ssa.Store); ok && st.Addr == ssa.Value(x) {
+				out = append(out, funcValuesOf(w, st.Val, depth+1)...)
+			}
+		}
+		return out
+	case *ssa.UnOp:
+		if x.Op == token.MUL {
+			return funcValuesOf(w, x.X, depth+1)
+		}
+	}
+	return nil
 }
